@@ -14,13 +14,13 @@ MAX_SHARDS = 16
 GATES = {
     'quick': {'evaluations': 2000, 'mode:noedit': 150, 'mode:edit': 150, 'mode:raise': 150, 'mode:remove': 100, 'mode:add': 100,
               'mode:single-edit': 100, 'mode:rekey': 80, 'entries_rekeyed': 100, 'graphs_with_absolute_include': 100, 'graphs_with_glob_characters_in_directory_names': 200, 'added:empty-built': 10, 'added:empty-parsed': 10, 'added:parsed-crlf': 10, 'edit_kind:clear': 50, 'edit_kind:append': 50, 'mode:single-noedit': 50, 'mode:single-raise': 50, 'mode:unmatched-include': 50,
-              'spelling:abs': 200, 'spelling:dot': 200, 'spelling:bare': 200, 'spelling:updown': 200, 'files_crlf_edited': 150,
+              'spelling:abs': 200, 'spelling:dot': 200, 'spelling:bare': 200, 'spelling:updown': 200, 'spelling:dslash': 150, 'files_crlf_edited': 150,
               'graphs_with_cycle_or_diamond': 200, 'graphs_with_glob': 200, 'audit_events': 5000},
     'thorough': {'evaluations': 35000, 'files_crlf_edited': 4000},
 }
 RULE = ('case = one temporary tree (outside /repo and /verif, removed afterwards) of 1..7 (thorough ..12) files in nested directories whose '
         'include directives form a random graph (plain, absolute, *.bean, **/*.bean, ../ patterns; directory names with [ and *; cycles, diamonds, self-includes), each file with LF, '
-        'CRLF or mixed line ends; the entry path spelled absolute, ./x, sub/../x or bare (cwd in the directory); the with-block edits a '
+        'CRLF or mixed line ends; the entry path spelled absolute, //absolute, ./x, sub/../x or bare (cwd in the directory); the with-block edits a '
         'random subset (an account renamed, a comment appended, or all directives removed), removes entries, moves entries to another spelling of their own path, adds 1..3 entries (existing or '
         'new directory; built or parsed models, also ones that print as the empty string, CRLF text), raises, or does nothing; both edit_file and '
         'edit_file_recursive. One evaluation = one with-block judged from the snapshot {path: bytes, mtime_ns} before/after and the '
@@ -45,6 +45,8 @@ def _hook(name, args):
         pth = os.path.abspath(os.fspath(args[0]))
     except TypeError:
         return
+    if pth.startswith('//'):
+        pth = pth[1:]           # POSIX keeps a leading double slash; it names the same file
     root = STATE['root']
     if root and (pth == root or pth.startswith(root + os.sep)):
         EV.append((name, os.path.relpath(pth, root), args[1] if name == 'open' else None))
@@ -156,15 +158,42 @@ def build_tree(r, root, tier):
     return names, nlc, feats
 
 
+
+def _pinned_symlink(col):
+    """One file under two names (a symbolic link next to it), both included: visited once, one model, edited once."""
+    root = os.path.realpath(tempfile.mkdtemp(prefix='beanmon-c16-'))
+    try:
+        with open(os.path.join(root, 'main.bean'), 'w') as fh:
+            fh.write('include "a.bean"\ninclude "l.bean"\n')
+        with open(os.path.join(root, 'a.bean'), 'w') as fh:
+            fh.write('2000-01-01 close Assets:Z\n')
+        os.symlink('a.bean', os.path.join(root, 'l.bean'))
+        ed = editor_lib.Editor(common.parser())
+        col.ev()
+        with ed.edit_file_recursive(os.path.join(root, 'main.bean')) as files:
+            n = len(files)
+            for f in files.values():
+                if f.directives and isinstance(f.directives[-1], models.Close):
+                    f.raw_directives_with_comments.append(models.BlockComment.from_value('edited'))
+        with open(os.path.join(root, 'a.bean')) as fh:
+            got = fh.read()
+        if n != 2 or got.count('; edited') != 1:
+            col.violation('symlinked-file-visited-twice', f'main.bean includes a.bean and l.bean -> a.bean: {n} entries in the mapping (2 files exist), '
+                          f'a.bean now reads {got!r}', {'files': {'main.bean': 'include "a.bean"\ninclude "l.bean"\n', 'a.bean': '2000-01-01 close Assets:Z\n', 'l.bean': '-> a.bean'}})
+    finally:
+        shutil.rmtree(root, ignore_errors=True)
+
+
 def run_case(col, r, idx):
     root = os.path.realpath(tempfile.mkdtemp(prefix='beanmon-c16-'))
     STATE['root'] = root
     try:
         names, nlc, feats = build_tree(r, root, col.tier)
-        spelling = r.choice(['abs', 'dot', 'bare', 'updown'])
+        spelling = r.choice(['abs', 'dot', 'bare', 'updown', 'dslash'])
         os.makedirs(os.path.join(root, 'a'), exist_ok=True)
         os.chdir(root)
-        entry = {'abs': os.path.join(root, 'index.bean'), 'dot': './index.bean', 'bare': 'index.bean', 'updown': 'a/../index.bean'}[spelling]
+        entry = {'abs': os.path.join(root, 'index.bean'), 'dot': './index.bean', 'bare': 'index.bean', 'updown': 'a/../index.bean',
+                 'dslash': '/' + os.path.join(root, 'index.bean')}[spelling]
         single = r.random() < 0.2
         unmatched = False
         try:
@@ -338,3 +367,6 @@ def run_case(col, r, idx):
         os.chdir(STATE.get('cwd') or '/')
         STATE['root'] = None
         shutil.rmtree(root, ignore_errors=True)
+
+
+PINNED = [('one file under two names', _pinned_symlink)]
